@@ -1,6 +1,7 @@
 //! C03 / C16 executor.
 //!
-//! `h <kind> <op> <op> ...`   one multi-treap history (kind 0 = lazy-add item, 1 = assign/add item)
+//! `h <kind> <op> <op> ...`   one multi-treap history (kind 0 = lazy-add item, 1 = assign/add item,
+//!                             2 = positional-hash item: order-sensitive aggregate, lazy add)
 //!     N            new empty treap                      F:v:p        from_item (priority p, or `n` = keep the generator's)
 //!     M:i:j        merge treaps i and j                 A:i:k        split_at
 //!     B:i:c        split_by (elem < c)                  I:i:k:v:p    insert_at
@@ -167,6 +168,80 @@ impl HItem for ItemAA {
             Some(c) => format!("{} {} {} {} 1 {}", self.x, self.sm, self.sz, self.add, c),
             None => format!("{} {} {} {} 0 0", self.x, self.sm, self.sz, self.add),
         }
+    }
+}
+
+/// positional (polynomial) hash over Z mod HP with base HB: for the subsequence x_0..x_{n-1} of a subtree
+///   sz = n, pw = HB^n, rp = sum_{i<n} HB^i, h = sum_i x_i * HB^(n-1-i)      (all reduced into [0, HP))
+/// The aggregate is order-sensitive: exchanging the two children in `update` changes `h`.
+/// Lazy modification "add c to every element": x += c, h += c * rp, md += c.  `x` and `md` stay small
+/// (never reduced, below 2^24 in every history); every product below is < 2^40, so i64 never overflows.  Same formulas, same
+/// reductions as `ihs_update` / `ihs_modify` / `ihs_push` in coq/theories/C03/Model.v.
+const HP: i64 = 65521;
+const HB: i64 = 30011;
+
+struct ItemHash {
+    x: i64,
+    sz: usize,
+    pw: i64,
+    rp: i64,
+    h: i64,
+    md: i64,
+}
+
+impl ItemHash {
+    fn add(&mut self, c: i64) {
+        self.x += c;
+        self.h = (self.h + c * self.rp).rem_euclid(HP);
+        self.md += c;
+    }
+}
+
+impl TreapItem for ItemHash {
+    fn update(&mut self, left: Option<&Self>, right: Option<&Self>) {
+        let (szl, pwl, rpl, hl) = left.map(|i| (i.sz, i.pw, i.rp, i.h)).unwrap_or((0, 1, 0, 0));
+        let (szr, pwr, rpr, hr) = right.map(|i| (i.sz, i.pw, i.rp, i.h)).unwrap_or((0, 1, 0, 0));
+        let bp = (HB * pwr).rem_euclid(HP);
+        self.sz = szl + 1 + szr;
+        self.pw = (pwl * bp).rem_euclid(HP);
+        self.rp = (rpl * bp + pwr + rpr).rem_euclid(HP);
+        self.h = (hl * bp + self.x * pwr + hr).rem_euclid(HP);
+    }
+
+    fn push(&mut self, left: Option<&mut Self>, right: Option<&mut Self>) {
+        if let Some(left) = left {
+            left.add(self.md);
+        }
+        if let Some(right) = right {
+            right.add(self.md);
+        }
+        self.md = 0;
+    }
+}
+
+impl TreapItemSized for ItemHash {
+    fn size(&self) -> usize {
+        self.sz
+    }
+}
+
+impl HItem for ItemHash {
+    fn mk(v: i64) -> Self {
+        Self { x: v, sz: 1, pw: HB.rem_euclid(HP), rp: 1, h: v.rem_euclid(HP), md: 0 }
+    }
+    fn modify(&mut self, m: Md) {
+        match m {
+            Md::Add(c) | Md::Set(c) => self.add(c),
+        }
+    }
+    fn elem(&self) -> i64 {
+        self.x
+    }
+    fn agg(&self) -> i64 {
+        self.h
+    }
+    fn dump(&self) -> String {
+        format!("{} {} {} {} {} {}", self.x, self.h, self.sz, self.md, self.pw, self.rp)
     }
 }
 
@@ -438,6 +513,7 @@ fn main() {
                     "h" => match toks[1] {
                         "0" => history::<ItemSized>(&toks[2..]),
                         "1" => history::<ItemAA>(&toks[2..]),
+                        "2" => history::<ItemHash>(&toks[2..]),
                         _ => {
                             eprintln!("harness: unknown item kind");
                             std::process::exit(3)
